@@ -32,7 +32,7 @@ def main(tier, replay=None):
         ts += [{'kind': 'main', 'allow': a, 'sarif': sf, 'codes': [c] * n, 'prop': 'C17'} for a in (0, 1) for sf in (False, True) for c in range(len(c3.CODES))]
         # hash-map iteration orders inside a pass: the side-effect pass under three iteration orders (templates; thorough: functions too)
         from . import C09
-        ts += [{'kind': 'orders', 't': dict(t, orders=True), 'prop': 'C17'} for t in C09.tasks(tier) if tier == 'thorough' or t['dt'] == 'Template']
+        ts += [{'kind': 'orders', 't': dict(t, orders=True), 'prop': 'C17'} for t in C09.tasks(tier) if tier == 'thorough' or (t['dt'] == 'Template' and t['lo'] < 600)]
         # every intra-procedural pass (real report construction) on straight-line templates over input / intermediate / output signals
         ts += [{'kind': 'orders', 't': t, 'prop': 'C17'} for t in C09.tasks_sig(tier)]
         return ts
